@@ -23,7 +23,7 @@ let scenario ts =
   (tm, argv, opts)
 let pfilters l = [Printf.sprintf "%x" (List.length l)] @ List.concat_map (fun f -> [pbytes f.f_pat; pbool f.f_strict; pbool f.f_invert]) l
 let pobs = function
-  | ORejected (h, r, p) -> String.concat " " [":rej"; pbool h; pn r; (match p with PNothing -> "0" | PUsage -> "1" | PHelp -> "2")]
+  | ORejected (h, r, p) -> String.concat " " [":rej"; pbool h; pn r; (match p with PNothing -> "0" | PUsage -> "1" | PHelp -> "2" | POther -> "3")]
   | OAccepted (c, sel) ->
       String.concat " " ([":ok"; pbool c.c_verbose; pbool c.c_veryverbose; pbool c.c_color; pbool c.c_sep; pbool c.c_listg; pbool c.c_listn;
                           pbool c.c_listl; pbool c.c_runign; pbool c.c_rev; pbool c.c_crash; pbool c.c_rethrow; pbool c.c_shuf;
@@ -39,7 +39,7 @@ let obs_of os =
   let c = { rest = os } in
   match next c with
   | ":rej" -> let h = bool_tok (next c) in let r = n_tok (next c) in
-              ORejected (h, r, (match next c with "0" -> PNothing | "1" -> PUsage | "2" -> PHelp | _ -> PNothing))
+              ORejected (h, r, (match next c with "0" -> PNothing | "1" -> PUsage | "2" -> PHelp | _ -> POther))
   | ":ok" ->
       let b () = bool_tok (next c) in
       let v = b () in let vv = b () in let co = b () in let p = b () in let lg = b () in let ln = b () in let ll = b () in
@@ -58,6 +58,5 @@ let spec_line ts os =
   let (tm, argv, opts) = scenario ts in
   if not (valid tm argv) then true else
   match (try Some (obs_of os) with _ -> None) with
-  | Some (ORejected (h, r, p)) when (List.nth os 3) = "3" -> false      (* something else than usage/help was printed *)
   | Some o -> spec tm argv opts o
   | None -> false
